@@ -277,6 +277,16 @@ fn check(rep: &mut Report, g: &G) {
     match guard_timeout(move || run_real(&gg, false, 10_000), 10) {
         Err(e) if e == "TIMEOUT" => { rep.fail("bfs-multiset", inp.clone(), format!("{:?}", exp), "no result within 10 s: the search diverges on a finite program".into(), "diverges"); rep.print(); std::process::exit(0); }
         Ok(got) => {
+            // C09 (deterministic): a second run of the same goal - fresh variables, fresh hash states in every
+            // HashMap/HashSet of the new State - yields the same SEQUENCE of answers
+            rep.case("determinism", format!("bfs {}", inp));
+            let gg2 = g.clone();
+            if let Ok(again) = guard_timeout(move || run_real(&gg2, false, 10_000), 10) {
+                if again != got {
+                    let (mut a, mut b) = (got.clone(), again.clone()); a.sort(); b.sort();
+                    rep.fail("determinism", inp.clone(), format!("{:?}", got), format!("{:?}", again), if a == b { "order" } else { "answers" });
+                }
+            }
             let (mut a, mut b) = (got.clone(), exp.clone());
             a.sort(); b.sort();
             if a != b {
